@@ -700,7 +700,8 @@ func c09r3(c *Ctx) {
 			}
 		}
 		// desired is built by a function in which SetPaused(true) happens iff objectSet.IsSpecPaused()
-		dc, idx := asCall(desired)
+		// (when the pause block was extracted into a helper, desired is the argument passed to it)
+		dc, idx := asCall(p.mwThroughParam(desired))
 		var builder *ssa.Function
 		if dc != nil && (idx == 0 || idx == -1) {
 			builder = staticCallee(dc.Common())
@@ -734,44 +735,74 @@ func c09RemotePhasesPausedFact(p *Program, fn *ssa.Function, fs []Fact, x ssa.Va
 		if !f.Pol {
 			continue
 		}
-		vals := p.possibleValues(f.Cond)
 		viaFn := 0
-		good := true
 		var names []string
-		for _, v := range vals {
-			call, idx := asCall(v)
-			if call == nil {
-				good = false
-				break
-			}
-			if calleeName(call.Common()) == "IsSpecPaused" && p.sameValue(callRecv(call.Common()), x) {
-				continue
-			}
-			g := staticCallee(call.Common())
-			if g == nil || g.Blocks == nil || idx != 0 {
-				good = false
-				break
-			}
-			passes := false
-			for _, a := range call.Common().Args {
-				if p.sameValue(a, x) {
-					passes = true
+		// every value that can have made the fact true is IsSpecPaused(x) or result 0 of a faithful
+		// count; a value computed by an extracted helper (`paused, unknown, err := helper(...)`) is
+		// judged by the values the helper returns; a constant false cannot have made the fact true
+		var accept func(v ssa.Value, d int) bool
+		accept = func(v ssa.Value, d int) bool {
+			for _, pv := range p.possibleValues(v) {
+				if b, isConst := constBool(pv); isConst && !b {
+					continue
+				}
+				call, idx := asCall(pv)
+				if call == nil {
+					return false
+				}
+				if calleeName(call.Common()) == "IsSpecPaused" && p.sameValue(callRecv(call.Common()), x) {
+					continue
+				}
+				g := staticCallee(call.Common())
+				if g == nil || g.Blocks == nil {
+					return false
+				}
+				passes := false
+				for _, a := range call.Common().Args {
+					if p.sameValue(a, x) {
+						passes = true
+					}
+				}
+				if !passes {
+					return false
+				}
+				if idx <= 0 {
+					ok, why := c09AllPhasesPausedFn(p, g)
+					if ok {
+						names = append(names, shortFuncID(g))
+						viaFn++
+						continue
+					}
+					lastWhy = shortFuncID(g) + ": " + why
+				}
+				if d >= 3 || !p.inlinable(g) {
+					return false
+				}
+				ri := idx
+				if ri < 0 {
+					ri = 0
+				}
+				n := 0
+				for _, b := range g.Blocks {
+					if len(b.Instrs) == 0 || (g.Recover != nil && b == g.Recover) {
+						continue
+					}
+					ret, isRet := b.Instrs[len(b.Instrs)-1].(*ssa.Return)
+					if !isRet || ri >= len(ret.Results) {
+						continue
+					}
+					n++
+					if !accept(p.resolveResult(ret.Results[ri], ret), d+1) {
+						return false
+					}
+				}
+				if n == 0 {
+					return false
 				}
 			}
-			if !passes {
-				good = false
-				break
-			}
-			ok, why := c09AllPhasesPausedFn(p, g)
-			if !ok {
-				lastWhy = shortFuncID(g) + ": " + why
-				good = false
-				break
-			}
-			names = append(names, shortFuncID(g))
-			viaFn++
+			return true
 		}
-		if good && viaFn > 0 {
+		if accept(f.Cond, 0) && viaFn > 0 {
 			return true, "T:phases paused, computed by " + strings.Join(names, ",") + " (count of phases with Paused=True == len(GetRemotePhases()))"
 		}
 	}
